@@ -84,7 +84,7 @@ class Index:
                 key = (os.path.basename(rec[0].get('_file') or ''), rec[0].get('_line'), loc.get('col'))
                 if key not in LAMBDA_STABLE:
                     stem = re.sub(r'\W', '_', os.path.splitext(key[0])[0])
-                    fname = re.sub(r'\W', '_', fn['name'].replace('~', 'dtor_').replace('operator()', 'op_call')).strip('_')
+                    fname = re.sub(r'\W', '_', fn['name'].split('<')[0].replace('~', 'dtor_').replace('operator()', 'op_call')).strip('_')
                     ck = (stem, fname)
                     self._cnt[ck] = self._cnt.get(ck, 0) + 1
                     LAMBDA_STABLE[key] = '%s_%s_%d' % (stem, fname, self._cnt[ck])
